@@ -10,6 +10,7 @@ CONSTANTS
   MaxFrames = 2
   MaxReads = 2
   MaxEdits = 1
+  MaxFaults = 1
   EditOps <- OpsAll
   Weak_ChallengeNotBound = FALSE
   Weak_ChallengeDHOnly = FALSE
@@ -19,6 +20,7 @@ CONSTANTS
   Weak_SameKeyBothDirections = TRUE
   Weak_ReadIgnoresAuthError = FALSE
   Weak_VerifyWrongKey = FALSE
+  Weak_NonceAfterTransportWrite = FALSE
 INIT Init
 NEXT Next
 INVARIANTS AuthenticatedExceptSelf NonceFresh PrefixExact TamperFails DeliveredExact LowOrderRefused
